@@ -19,8 +19,11 @@ def gen(rng, n):
         S.knobs(rng, d)
         S.driver(rng, d)
         d["CLOSER"] = 0
-        d["IDLE_MS"] = 60000
-        d["MAX_TIME"] = 120_000_000
+        d["FAIR_RUN"] = rng.choice([1, 1, 2])   # fair loss: bounded runs of consecutive drops
+        # no idle timeout: PTO back-off after unlucky handshake losses may legitimately exceed any
+        # fixed idle period; the run must still complete (quiescent, everything finished) in time
+        d["IDLE_MS"] = 0
+        d["MAX_TIME"] = 300_000_000
         if rng.chance(1, 4):
             d["ECHO_BYTES"] = rng.choice([1, 3000])
         if rng.chance(1, 6):
@@ -34,12 +37,31 @@ def gen(rng, n):
             d["NEW_RWND"] = rng.choice([500, 5000, 100000])
         if d.get("RETRY") and d.get("DROP_MASK", 0) >= 64:
             d["DROP_MASK"] &= 63   # a retry token only lives 15 s: do not starve the handshake beyond that
+        if rng.chance(1, 5):
+            # many streams whose stream window is below 1/8 of the connection window, read one at a
+            # time by a slow reader: stream credit and connection credit come back separately
+            k = rng.range(8, 12)
+            d["NBIDI"] = 0
+            d["NUNI"] = k
+            d["MAX_UNI"] = 100
+            d.pop("MAX_BIDI", None)
+            sw = rng.choice([500, 1000])
+            d["STREAM_RWND"] = sw
+            d["RWND"] = k * sw
+            d["STREAM_BYTES"] = sw * rng.choice([2, 3])
+            d["WRITE_CHUNK"] = 100000
+            d["READ_SERIAL"] = rng.choice([30000, 100000])
+            d["LOSS"] = rng.choice([0, 0, 30])
+            d.pop("SEND_WINDOW", None)
+            d.pop("ZERO_RTT", None)
+            d.pop("PACING_BPS", None)
         # keep the transfer within a few hundred round trips of the smallest window
         w = min(d.get("STREAM_RWND", 1 << 40), d.get("RWND", 1 << 40), d.get("SEND_WINDOW", 1 << 40))
-        if d["STREAM_BYTES"] > 100 * w:
-            d["STREAM_BYTES"] = 100 * w
-        if d.get("ECHO_BYTES", 0) > 100 * w:
-            d["ECHO_BYTES"] = 100 * w
+        k = 20 if d.get("LOSS", 0) >= 100 else 100
+        if d["STREAM_BYTES"] > k * w:
+            d["STREAM_BYTES"] = k * w
+        if d.get("ECHO_BYTES", 0) > k * w:
+            d["ECHO_BYTES"] = k * w
         if d.get("PACING_BPS") and d["STREAM_BYTES"] > d["PACING_BPS"] // 2:
             d["STREAM_BYTES"] = d["PACING_BPS"] // 2
         cases.append(S.case_of(d))
